@@ -118,7 +118,7 @@ func (in *Interp) callValueG(fn Value, args []Value, g *goroutine) {
 		}
 		in.call(x.Fn, args, x.Env, nil)
 	case *ssa.Builtin:
-		in.builtin(x, args, nil, nil)
+		in.builtin(x, args, nil, nil, nil)
 	default:
 		panic(engineErr("go of %T", fn))
 	}
